@@ -11,6 +11,7 @@ OutOfDomain; reading an undefined location raises PoisonRead.
 """
 from __future__ import annotations
 
+import re
 from fractions import Fraction
 
 from psyclone.psyir import nodes as N
@@ -1052,7 +1053,9 @@ class Interp:
                 f"{len(formals)} dummies")
         # scalars first (array bounds may refer to them)
         for frm, act in zip(formals, actuals):
-            if not isinstance(frm.datatype, ArrayType):
+            if isinstance(frm.datatype, UnsupportedType):
+                self.bind_unsupported(frame, frm, act)
+            elif not isinstance(frm.datatype, ArrayType):
                 self.bind_scalar(frame, frm, act)
         for frm, act in zip(formals, actuals):
             if isinstance(frm.datatype, ArrayType):
@@ -1075,6 +1078,45 @@ class Interp:
                                         for i in range(res.size)])
             return self.load(res, 0)
         return None
+
+    _UNSUP_DECL = re.compile(
+        r"^\s*(REAL|INTEGER|LOGICAL)\s*,\s*DIMENSION\(([-+0-9:, ]+)\)\s*"
+        r"(,\s*INTENT\(\w+\)\s*)?::\s*(\w+)\s*$", re.I)
+
+    def bind_unsupported(self, frame, frm, act):
+        """Explicit-shape array dummy whose declaration PSyclone keeps as
+        text (e.g. a lower bound written '-1'): literal bounds only."""
+        decl = getattr(frm.datatype, "declaration", "")
+        mat = self._UNSUP_DECL.match(decl)
+        if not mat or mat.group(4).lower() != frm.name.lower():
+            raise Unsupported(f"datatype {frm.datatype}")
+        typ = {"real": "real", "integer": "int",
+               "logical": "log"}[mat.group(1).lower()]
+        bounds = []
+        for dim in mat.group(2).split(","):
+            parts = [p.replace(" ", "") for p in dim.split(":")]
+            try:
+                if len(parts) == 1:
+                    bounds.append((1, int(parts[0])))
+                elif len(parts) == 2:
+                    bounds.append((int(parts[0]), int(parts[1])))
+                else:
+                    raise ValueError(dim)
+            except ValueError:
+                raise Unsupported(f"datatype {frm.datatype}")
+        if act.typ != typ:
+            raise InterpError(
+                f"type mismatch for dummy {frm.name}: {act.typ} vs {typ}")
+        size = 1
+        for lbd, ubd in bounds:
+            size *= max(0, ubd - lbd + 1)
+        if size > act.size:
+            raise InterpError(
+                f"dummy {frm.name} ({size} elements) larger than actual "
+                f"({act.size})")
+        fmap = [act.rflat(i) for i in range(size)]
+        frame.vars[frm.name.lower()] = Arr(typ, bounds, root=act.root,
+                                           fmap=fmap, bits=act.bits)
 
     def bind_scalar(self, frame, frm, act):
         typ = self.typ_of(frm.datatype)
